@@ -107,3 +107,142 @@ def scancode_ref(info, prop, tier, verif, refine=()):
     out.append('} // mod %s' % mod)
     aux = {'reference': 'spec/scancodes.json', 'reference_errata': ref.get('errata', []), 'cells_checked': ncells}
     return '\n'.join(out), obs, aux
+
+
+# ---------------------------------------------------------------------------- C19 / C13
+
+CTXN = {'plain': 0, 'e0': 1, 'e1': 2}
+
+
+def t_fn_text(setn, ty):
+    return ('pub open spec fn t_%s(ctx: u8, code: u8) -> Result<KeyCode, Error> {\n'
+            '    if ctx == 0 { %s::spec_map_scancode(code) } else if ctx == 1 { %s::spec_map_extended_scancode(code) } else { %s::spec_map_extended2_scancode(code) }\n}\n'
+            % (setn, ty, ty, ty))
+
+
+def inverse_hint(info, setn):
+    """(key -> (ctx, code)) from the native dump of the real tables: an *untrusted hint*, checked by Verus"""
+    from . import native
+    h = native.hints(info, 'tables')
+    inv = {}
+    dup = []
+    for ctx in ('plain', 'e0', 'e1'):
+        row = h['%s/%s' % (setn, ctx)]
+        for code in range(256):
+            v = row[code]
+            if v.startswith('Err') or v == 'None':
+                continue
+            key, st = v.split('/')
+            if st == 'Up':
+                continue
+            if key in inv:
+                dup.append((key, inv[key], (CTXN[ctx], code)))
+                continue
+            inv[key] = (CTXN[ctx], code)
+    return inv, dup
+
+
+def inv_fn_text(name, inv):
+    arms = ['        KeyCode::%s => (%du8, 0x%02Xu8),' % (k, v[0], v[1]) for k, v in sorted(inv.items(), key=lambda kv: kv[1])]
+    return 'pub open spec fn %s(k: KeyCode) -> (u8, u8) {\n    match k {\n%s\n        _ => (9u8, 0u8),\n    }\n}\n' % (name, '\n'.join(arms))
+
+
+def injectivity(info, prop, tier, verif, refine=()):
+    """C19: within each set, distinct (prefix, code) pairs denote distinct keys - via a verified inverse map"""
+    check_tables_exist(info)
+    known = {f['obligation']: f for f in load_findings(verif) if f['property'] == prop}
+    mod = 'verif_%s_cells' % prop.lower()
+    out = ['pub mod %s {' % mod, 'use vstd::prelude::*;', 'use crate::*;', '']
+    obs = {}
+    aux = {'inverse_hint': 'native dump of the real decoders through the public API (untrusted; Verus proves it is the inverse)'}
+    ncells = 0
+    for setn, ty in (('set1', 'ScancodeSet1'), ('set2', 'ScancodeSet2')):
+        inv, dup = inverse_hint(info, setn)
+        out.append(t_fn_text(setn, ty))
+        out.append(inv_fn_text('inv_%s' % setn, inv))
+        unit = '%s/injective/%s' % (prop, setn)
+        cell_id = lambda ctx, c: '%s/%s/%s/0x%02X' % (prop, setn, ctx, c)
+        kn = [(ctx, c) for ctx in CTXN for c in range(256) if cell_id(ctx, c) in known]
+        out.append('pub open spec fn gap_%s(ctx: u8, c: u8) -> bool {\n    %s\n}\n' % (
+            setn, ' || '.join('(ctx == %d && c == 0x%02Xu8)' % (CTXN[x], c) for x, c in kn) if kn else 'false'))
+        out.append('/*@LEMMA:%s@*/' % unit)
+        out.append('pub proof fn injective_%s()\n    ensures\n        forall|ctx: u8, c: u8| ctx < 3 && !gap_%s(ctx, c) ==> ((#[trigger] t_%s(ctx, c)) matches Ok(k) ==> inv_%s(k) == (ctx, c)),\n{\n}' % (setn, setn, setn, setn))
+        out.append('/*@ENDLEMMA@*/')
+        percell = tier == 'thorough' or unit in refine
+        obs[unit] = {'kind': 'coarse', 'unit': unit, 'props': [prop], 'cells': 0 if percell else 768 - len(kn),
+                     'text': 'forall ctx<3, code: t_%s(ctx, code) == Ok(k) ==> inv_%s(k) == (ctx, code)   [%d decodable keys]' % (setn, setn, len(inv))}
+        ncells += 768
+        todo = [(ctx, c) for ctx in CTXN for c in range(256)] if percell else kn
+        for ctx, c in todo:
+            cid = cell_id(ctx, c)
+            out.append('proof fn cell_%s_%s_%02x() { assert(t_%s(%du8, 0x%02Xu8) matches Ok(k) ==> inv_%s(k) == (%du8, 0x%02Xu8)); } // CELL %s' % (
+                setn, ctx, c, setn, CTXN[ctx], c, setn, CTXN[ctx], c, cid))
+            obs[cid] = {'kind': 'cell', 'unit': unit, 'props': [prop], 'text': '%s (%s, 0x%02X) is the only sequence of its key' % (setn, ctx, c)}
+        aux['decodable_keys_' + setn] = len(inv)
+    out.append('} // mod %s' % mod)
+    aux['cells_covered'] = ncells
+    return '\n'.join(out), obs, aux
+
+
+def xlat_cells(info, prop, tier, verif, refine=()):
+    """C13: Set 2 code and its i8042 translation decode to the same key (forward), and every Set 1 key that Set 2 can
+    express is the translation of its Set 2 sequence (backward)"""
+    check_tables_exist(info)
+    x = json.load(open(os.path.join(verif, 'spec', 'i8042_xlat.json'), encoding='utf-8'))['xlat']
+    known = {f['obligation']: f for f in load_findings(verif) if f['property'] == prop}
+    mod = 'verif_%s_cells' % prop.lower()
+    out = ['pub mod %s {' % mod, 'use vstd::prelude::*;', 'use crate::*;', '']
+    obs = {}
+    out.append(t_fn_text('set1', 'ScancodeSet1'))
+    out.append(t_fn_text('set2', 'ScancodeSet2'))
+    inv2, dup = inverse_hint(info, 'set2')
+    out.append(inv_fn_text('inv_set2', inv2))
+    arms = ['        %su8 => %su8,' % (k, v) for k, v in sorted(x.items(), key=lambda kv: int(kv[0], 16))]
+    out.append('/// the i8042 translation table (spec/i8042_xlat.json)\npub open spec fn xlat(c: u8) -> u8 {\n    match c {\n%s\n        _ => 0xFFu8,\n    }\n}\n' % '\n'.join(arms))
+    out.append('pub open spec fn xlat_dom(c: u8) -> bool {\n    (1 <= c <= 0x7F) || c == 0x83 || c == 0x84\n}\n')
+    dom = sorted(int(k, 16) for k in x)
+    ncells = 0
+    fid = lambda ctx, c: '%s/forward/%s/0x%02X' % (prop, ctx, c)
+    bid = lambda ctx, c: '%s/backward/%s/0x%02X' % (prop, ctx, c)
+    knf = [(ctx, c) for ctx in CTXN for c in dom if fid(ctx, c) in known]
+    knb = [(ctx, c) for ctx in CTXN for c in range(128) if bid(ctx, c) in known]
+    out.append('pub open spec fn gap_fwd(ctx: u8, c: u8) -> bool {\n    %s\n}\n' % (' || '.join('(ctx == %d && c == 0x%02Xu8)' % (CTXN[a], c) for a, c in knf) if knf else 'false'))
+    out.append('pub open spec fn gap_bwd(ctx: u8, c: u8) -> bool {\n    %s\n}\n' % (' || '.join('(ctx == %d && c == 0x%02Xu8)' % (CTXN[a], c) for a, c in knb) if knb else 'false'))
+    # the hint really is the inverse of the Set 2 tables
+    unit = '%s/inv_set2_is_inverse' % prop
+    out.append('/*@LEMMA:%s@*/' % unit)
+    out.append('pub proof fn inv_set2_is_inverse()\n    ensures\n        forall|ctx: u8, c: u8| ctx < 3 ==> ((#[trigger] t_set2(ctx, c)) matches Ok(k) ==> inv_set2(k) == (ctx, c)),\n{\n}')
+    out.append('/*@ENDLEMMA@*/')
+    obs[unit] = {'kind': 'lemma', 'props': [prop], 'text': 'the inverse-map hint used by the backward lemma is the inverse of the Set 2 tables (so "not expressible in Set 2" is exact)'}
+    # forward
+    unit = '%s/forward' % prop
+    out.append('/*@LEMMA:%s@*/' % unit)
+    out.append('pub proof fn forward()\n    ensures\n        forall|ctx: u8, c2: u8| ctx < 3 && xlat_dom(c2) && !gap_fwd(ctx, c2) ==> ((#[trigger] t_set2(ctx, c2)) matches Ok(k) ==> t_set1(ctx, xlat(c2)) == Ok::<KeyCode, Error>(k)),\n{\n}')
+    out.append('/*@ENDLEMMA@*/')
+    percell = tier == 'thorough' or unit in refine
+    obs[unit] = {'kind': 'coarse', 'unit': unit, 'props': [prop], 'cells': 0 if percell else 3 * len(dom) - len(knf),
+                 'text': 'forall ctx<3, c2 in 0x01-0x7F,0x83,0x84: Set2 ctx c2 == Ok(k) ==> Set1 ctx xlat(c2) == Ok(k)'}
+    ncells += 3 * len(dom)
+    for ctx, c in ([(a, c) for a in CTXN for c in dom] if percell else knf):
+        cid = fid(ctx, c)
+        out.append('proof fn cell_fwd_%s_%02x() { assert(t_set2(%du8, 0x%02Xu8) matches Ok(k) ==> t_set1(%du8, xlat(0x%02Xu8)) == Ok::<KeyCode, Error>(k)); } // CELL %s' % (
+            ctx, c, CTXN[ctx], c, CTXN[ctx], c, cid))
+        obs[cid] = {'kind': 'cell', 'unit': unit, 'props': [prop], 'text': 'Set 2 (%s, 0x%02X) and Set 1 (%s, %s) decode to the same key' % (ctx, c, ctx, x['0x%02X' % c])}
+    # backward
+    unit = '%s/backward' % prop
+    out.append('/*@LEMMA:%s@*/' % unit)
+    out.append('pub proof fn backward()\n    ensures\n        forall|ctx: u8, c1: u8| ctx < 3 && c1 < 0x80 && !gap_bwd(ctx, c1) ==> ((#[trigger] t_set1(ctx, c1)) matches Ok(k) ==>\n'
+               '            (inv_set2(k).0 == 9 || (inv_set2(k).0 == ctx && xlat(inv_set2(k).1) == c1))),\n{\n}')
+    out.append('/*@ENDLEMMA@*/')
+    percell = tier == 'thorough' or unit in refine
+    obs[unit] = {'kind': 'coarse', 'unit': unit, 'props': [prop], 'cells': 0 if percell else 3 * 128 - len(knb),
+                 'text': 'forall ctx<3, c1<0x80: Set1 ctx c1 == Ok(k) and k expressible in Set 2 ==> its Set 2 sequence has the same prefix and translates to c1'}
+    ncells += 3 * 128
+    for ctx, c in ([(a, c) for a in CTXN for c in range(128)] if percell else knb):
+        cid = bid(ctx, c)
+        out.append('proof fn cell_bwd_%s_%02x() { assert(t_set1(%du8, 0x%02Xu8) matches Ok(k) ==> (inv_set2(k).0 == 9 || (inv_set2(k).0 == %du8 && xlat(inv_set2(k).1) == 0x%02Xu8))); } // CELL %s' % (
+            ctx, c, CTXN[ctx], c, CTXN[ctx], c, cid))
+        obs[cid] = {'kind': 'cell', 'unit': unit, 'props': [prop], 'text': 'Set 1 (%s, 0x%02X): if Set 2 can express the key, its sequence translates to this one' % (ctx, c)}
+    out.append('} // mod %s' % mod)
+    aux = {'reference': 'spec/i8042_xlat.json', 'cells_covered': ncells}
+    return '\n'.join(out), obs, aux
